@@ -90,6 +90,10 @@ func c12Cases(tier string) []Case {
 	ex("negative-balance", "vars {\n monetary $m = balance(@a, USD)\n}\n"+send("$m", "@world", "@d"), "", "", "|NegativeBalanceError")
 	ex("zero-denominator", send("[USD 10]", "@world", "{ 1/0 to @d remaining to @e }"), "", "", "BadPortionParsingErr|InvalidAllotmentSum|other")
 	ex("zero-denominator", "set_tx_meta(\"k\", 0/0)", "", "", "BadPortionParsingErr|other")
+	ex("huge-denominator", send("[USD 10]", "@world", "{ 1/18446744073709551616 to @a remaining to @b }"), "", "", "")
+	ex("huge-denominator", send("[USD 10]", "{ 0.00000000000000000000000000000000000000000000000000000000000001% from @world remaining from @world }", "@d"), "", "", "")
+	ex("huge-denominator", send("[USD 10]", "@world", "{ 1/9223372036854775808 to @a 9223372036854775807/9223372036854775808 to @b }"), "", "", "")
+	ex("huge-denominator", "set_tx_meta(\"p\", 3/36893488147419103232)", "", "", "")
 	ex("huge-numbers", "vars {\n number $n\n number $m\n}\nset_tx_meta(\"k\", $n + $m - $n)", "n=num;m=num", "", "")
 	// (d) store faults at every call
 	for _, c := range c10Cases(tier) {
